@@ -425,6 +425,10 @@ def oracle(spec, order, impl):
             ic = impl["comps"][c]
             if not all(ic["in_infos"]):
                 return ("after success every input's metadata is exchanged", {"comp": c, "in_infos": ic["in_infos"]}, "in-info-missing")
+            for i, (a, b) in enumerate(zip(ic["info_repr"][0], ic["info_repr"][2])):
+                if a != b:
+                    return ("the metadata the connector reports for an input is the metadata that input holds after the exchange",
+                            {"comp": c, "input": i, "connector_in_info": a, "input_info": b}, "in-info-differs")
             for o, y in enumerate(cs["outs"]):
                 has_targets = any(tuple(x["src"]) == (c, o) for cs2 in spec["comps"] for x in cs2["ins"])
                 if not has_targets:
